@@ -141,9 +141,14 @@ func (l *withNewMessage) SafeDetails() []string {
 	return []string{l.message.Redact().StripMarkers()}
 }
 
-func encodeWithNewMessage(_ context.Context, err error) (string, []string, proto.Message) {
+func encodeWithNewMessage(
+	_ context.Context, err error,
+) (string, []string, proto.Message, errbase.MessageType) {
 	l := err.(*withNewMessage)
-	return l.Error(), l.SafeDetails(), &errorspb.StringPayload{Msg: string(l.message)}
+	// The message overrides the cause's: it is marked as a full
+	// message so that a receiver that does not know this type does not
+	// append the cause's text to it.
+	return l.Error(), l.SafeDetails(), &errorspb.StringPayload{Msg: string(l.message)}, errbase.FullMessage
 }
 
 func decodeWithNewMessage(
@@ -161,6 +166,6 @@ func decodeWithNewMessage(
 }
 
 func init() {
-	errbase.RegisterWrapperEncoder(errbase.GetTypeKey((*withNewMessage)(nil)), encodeWithNewMessage)
+	errbase.RegisterWrapperEncoderWithMessageType(errbase.GetTypeKey((*withNewMessage)(nil)), encodeWithNewMessage)
 	errbase.RegisterWrapperDecoder(errbase.GetTypeKey((*withNewMessage)(nil)), decodeWithNewMessage)
 }
